@@ -50,7 +50,7 @@ def all_tables():
 
 
 def plan(tier, seed):
-    n = 700 if tier == 'quick' else len(all_tables())
+    n = 2500 if tier == 'quick' else len(all_tables())
     return [('tables', n)]
 
 
